@@ -403,7 +403,7 @@ def run(ctx):
     distinct = set()
     sample = None
     for mode in MODES:
-        if len(ctx.failing) >= 3 or dist["divergences"] >= 6:
+        if len(ctx.failing) >= 3:
             break        # enough concrete evidence; do not spend the budget on more of the same
         cases = load_corpus(mode)
         ncorp = len(cases)
@@ -440,11 +440,25 @@ def run(ctx):
         for (ci, li, op, a, b) in diffs:
             case = cases[ci]
             oracle = "!ORACLE" in a or "<no-output" in a
+            if not oracle:
+                # the model and the code disagree although the property's own oracle is content; the very next
+                # lines of the same case may still show an oracle failure (e.g. a later no-allocation check)
+                io, rc, err = ctx.run_lines(exe, ["reset"] + case, [mode])
+                hit = [k for k, l in enumerate(io) if "!ORACLE" in l]
+                if rc != 0 or hit:
+                    oracle, li = True, (hit[0] - 1 if hit else len(case) - 1)
+                elif dist["divergences"] >= 3:
+                    dist["divergences"] += 1
+                    continue
 
-            def still(cand, want_oracle=oracle):
+            io0, rc0, _ = ctx.run_lines(exe, ["reset"] + case[:li + 1], [mode])
+            m0 = re.search(r"!ORACLE\((\w+)", " ".join(io0))
+            kind0 = m0.group(1) if m0 else "crash"
+
+            def still(cand, want_oracle=oracle, kind0=kind0):
                 io, rc, err = ctx.run_lines(exe, ["reset"] + cand, [mode])
-                if want_oracle:
-                    return rc != 0 or any("!ORACLE" in l for l in io)
+                if want_oracle:   # the same kind of failure, not just any
+                    return rc != 0 if kind0 == "crash" else any("!ORACLE(" + kind0 in l for l in io)
                 mo, _, _ = ctx.run_lines(drv, ["reset"] + cand, [mode])
                 return len(io) != len(mo) or any(not same(x, y) for x, y in zip(io, mo))
             small = ctx.shrink(case[:li + 1], still, budget=150)
@@ -464,7 +478,7 @@ def run(ctx):
             else:
                 dist["divergences"] += 1
                 ctx.broke("correspondence", "E-SEQ c12 mode=%s" % mode, "first difference at op %r: impl %r, model %r; minimised case:\n%s" % (op, a[:300], b[:300], text))
-            if len(seen_keys) >= 2 or dist["oracle_failures"] + dist["divergences"] >= 8:
+            if len(seen_keys) >= 2:
                 break
         if ncorp:
             ctx.notes.append("corpus cases run first for mode %s: %d" % (mode, ncorp))
